@@ -246,6 +246,13 @@ def run(check, repo, tier):
     rm7 = _Remap(check, {"R1": "R7"})
     rm7.floor = lambda cond, message: check.floor(cond, message.replace("C15.", "C16<-C15."))
     n += c15.framing(rm7, P)
+    # socket connections: a reply counts as the acknowledgement only as a whole line; the line reassembly rules of C17
+    check.rule("R8", "socket replies are handed on as whole lines only: byte conservation, one newline per returned line, a timeout returns the empty marker "
+                     "and never a buffered fragment (rules R1-R3 of C17)")
+    from . import c17
+    rm8 = _Remap(check, {"R1": "R8", "R2": "R8", "R3": "R8"})
+    rm8.floor = lambda cond, message: check.floor(cond, message.replace("C17", "C16<-C17"))
+    c17.run(rm8, repo, tier)
     check.analysed = {"program": P.stats(), "abstract_paths": n, "entries": ["PrintrunWriter.write", "_on_device_message", "_on_printrun_error", "disconnect", "SerialWriter.write", "SocketWriter.write"]}
     check.sample({"entry": "PrintrunWriter.write", "order_required": ["_ack_event.clear", "device.send", "_ack_event.wait", "_device_error check"]})
     check.coverage["exhaustive"] = True
